@@ -744,7 +744,13 @@ func (rn *runner) step(st *caseState, si int, prev, next *schema, ops []evoOp) {
 				}
 			}
 			if len(locs) > 1 {
-				rep.Count("method_present_in_two_files_after_move", 1)
+				// the same method declared twice in one package: the user's package no longer builds
+				rep.Count("method_present_in_two_files", 1)
+				var where []string
+				for _, l := range locs {
+					where = append(where, l.file)
+				}
+				rep.Violate("resolver-method-declared-in-two-files", detail("a kept resolver method is declared in more than one file of the resolver package after regeneration", map[string]any{"method": k, "files": where}))
 			}
 			rep.Count("methods_compared", 1)
 			nontrivial = true
